@@ -485,9 +485,21 @@ func Yield(label string) {
 	}
 }
 
+// SpawnHook, when set, takes over instrumented `go` statements outside of a
+// schedule exploration: history explorers use it to turn background
+// goroutines into pending events that they run at a moment of their choice.
+// It must only be set while no other goroutine runs instrumented code.
+var SpawnHook func(label string, f func(), args []any)
+
 // Spawn runs f as a new task under the explorer, or as a plain goroutine
-// when running free.  Instrumented `go` statements call it.
-func Spawn(label string, f func()) {
+// when running free.  Instrumented `go` statements call it; args are the
+// evaluated arguments of the call, for descriptions.
+func Spawn(label string, f func(), args ...any) {
+	if h := SpawnHook; h != nil {
+		h(label, f, args)
+
+		return
+	}
 	if s := Cur(); s != nil && s.cur != nil {
 		s.Go(label, f)
 
